@@ -379,41 +379,48 @@ def mkWrapper (gates : List Kind) (r : Reg) : Option Op :=
   if r.ty = .c then none
   else if gates.all Kind.isOneQubitBase then some ⟨.wrapper, [r], [], ["one-qubit"], gates⟩ else none
 
+/-- body of the loop, first half: `if node in self.node_dict.get("one-qubit", []): … gate_list += …; self.remove_op(node)` -/
+def groupTake (c : Dag) (node : NodeId) (gates : List Kind) : Dag × List Kind × Option DErr :=
+  if (dictGet c.nodeDict "one-qubit").contains node then
+    match c.opOf? node with
+    | none => (c, gates, some .key)
+    | some op =>
+      ((c.removeOp node).1, (if op.kind = .wrapper then gates ++ op.inner else gates ++ [op.kind]), (c.removeOp node).2)
+  else (c, gates, none)
+
+/-- body of the loop, second half: `out_edges = …; insert_edge = edge_from_reg(…); self.insert_at(OneQubitGateWrapper(…), [insert_edge])` -/
+def groupFlush (c : Dag) (r : Reg) (next : NodeId) (gates : List Kind) : Res :=
+  match edgeFromReg (c.outEdges next) r with
+  | none => (c, some .type)
+  | some ie =>
+    match mkWrapper gates r with
+    | none => (c, some .assertion)
+    | some w => c.insertAt w [ie]
+
 /-- the `while next_node not in self.node_dict["Input"]` loop of `group_one_qubit_gates` for one register;
     `fuel` bounds the number of iterations (the wire is finite and acyclic) -/
 def groupWalk (r : Reg) : Nat → Dag → NodeId → List Kind → Res
   | 0, c, _, _ => (c, some .fuel)
-  | fuel + 1, c, next, gates =>
-    if (dictGet c.nodeDict "Input").contains next then (c, none) else
-    let node := next
+  | fuel + 1, c, node, gates =>
+    if (dictGet c.nodeDict "Input").contains node then (c, none) else
     match edgeFromReg (c.inEdges node) r with
     | none => (c, some .type)
     | some edge =>
       let next := edge.src
-      let oneq := dictGet c.nodeDict "one-qubit"
-      let step1 : Dag × List Kind × Option DErr :=
-        if oneq.contains node then
-          match c.opOf? node with
-          | none => (c, gates, some .key)
-          | some op =>
-            let gates' := if op.kind = .wrapper then gates ++ op.inner else gates ++ [op.kind]
-            match c.removeOp node with
-            | (c1, err) => (c1, gates', err)
-        else (c, gates, none)
-      match step1 with
+      match groupTake c node gates with
       | (c1, _, some err) => (c1, some err)
       | (c1, gates1, none) =>
         if !((dictGet c1.nodeDict "one-qubit").contains next) && !gates1.isEmpty then
-          match edgeFromReg (c1.outEdges next) r with
-          | none => (c1, some .type)
-          | some ie =>
-            match mkWrapper gates1 r with
-            | none => (c1, some .assertion)
-            | some w =>
-              match c1.insertAt w [ie] with
-              | (c2, some err) => (c2, some err)
-              | (c2, none) => groupWalk r fuel c2 next []
+          match groupFlush c1 r next gates1 with
+          | (c2, some err) => (c2, some err)
+          | (c2, none) => groupWalk r fuel c2 next []
         else groupWalk r fuel c1 next gates1
+
+/-- `reg_type = op.reg_type; register = op.register` of the Output operation at node `o` -/
+def outReg (o : NodeId) (op : Op) : Reg :=
+  match o with
+  | .out r => r
+  | _ => op.qregs.headD default
 
 def groupLoop (c : Dag) : List NodeId → Res
   | [] => (c, none)
@@ -421,12 +428,10 @@ def groupLoop (c : Dag) : List NodeId → Res
     match c.opOf? o with
     | none => (c, some .key)
     | some op =>
-      -- `reg_type = op.reg_type; register = op.register` of the Output operation
-      let r : Reg := match o with | .out r => r | _ => (op.qregs.headD default)
-      match edgeFromReg (c.inEdges o) r with
+      match edgeFromReg (c.inEdges o) (outReg o op) with
       | none => (c, some .type)
       | some e =>
-        match groupWalk r (c.nodes.length + 1) c e.src [] with
+        match groupWalk (outReg o op) (c.nodes.length + 1) c e.src [] with
         | (c1, some err) => (c1, some err)
         | (c1, none) => groupLoop c1 os
 
